@@ -64,6 +64,20 @@ theorem Inv.cur_lt {cfg : Cfg} {s : St} {d : Disk} (h : Inv cfg s d) {j : Job} (
     exact hr.nums.2.1
   · exact (h.run hp).nums.2
 
+/-- the groups of the output tables as the storage holds them -/
+theorem added_grps_eq {d : Disk} {outs : List (Nat × List Grp)}
+    (h : ∀ o ∈ outs, lookup d.tables o.1 = some ⟨o.2, true, false⟩) :
+    (outs.map (·.1)).flatMap (tableGrpsOf d) = outs.flatMap (·.2) := by
+  induction outs with
+  | nil => rfl
+  | cons o os ih =>
+    simp only [List.map_cons, List.flatMap_cons]
+    rw [ih (fun o' ho' => h o' (List.mem_cons_of_mem _ ho'))]
+    congr 1
+    unfold tableGrpsOf
+    rw [h o List.mem_cons_self]
+    rfl
+
 theorem inv_job_append_normal {cfg : Cfg} (hg : cfg.Good) {s : St} {d : Disk} (h : Inv cfg s d) {j : Job}
     (hj : s.job = some j) (hpc : j.pc = .append) (hopen : s.manifestOpen = true) (hmfl : s.manifestFailed = false)
     {s' : St} {d' : Disk} (hs : stepJob cfg s d j false .ok = some (s', d')) : Inv cfg s' d' := by
@@ -145,7 +159,10 @@ theorem inv_job_append_normal {cfg : Cfg} (hg : cfg.Good) {s : St} {d : Disk} (h
         rw [goto_eq]
         apply RunOK.job_step (d' := { d with manifests := d.manifests.modify m (·.append e') }) hrun j' s.nextFile
           s.live s.stJn s.stSq s.manifestFd s.manifestOpen (Nat.le_refl _) rfl
-          ⟨hmfd', hrun.mfd.2⟩ hrun.nums.2 (hrun.hnc_post (j' := j') hok hj hr rfl rfl (fun _ => ⟨rfl, rfl⟩))
+          ⟨hmfd', hrun.mfd.2⟩ hrun.nums.2 (fun _ _ => ⟨by
+            unfold FlushPending
+            rw [hj]
+            exact fun _ => JPc.uninstalled_of_bc hbc, rfl, rfl⟩)
         · rw [curManifest_modify hc, hcur]
           simp only [Option.map_some, Holds]
           rw [viewAt_append_le cfg mf e' (Nat.zero_le _), hparts.hv0]
@@ -178,17 +195,36 @@ theorem inv_job_append_normal {cfg : Cfg} (hg : cfg.Good) {s : St} {d : Disk} (h
             | none => _
           rw [he]
           simp only [JobManifest]
-          refine ⟨hopen, ?_⟩
-          rw [curManifest_modify hc, hcur]
-          simp only [Option.map_some, Holds]
-          refine ⟨by
-            simp only [LogFile.append, hun, List.nil_append, List.head?_cons, Holds]
-            exact ⟨rfl, Nat.le_refl _⟩, ?_⟩
-          rw [viewAt_append_le cfg mf e' (Nat.zero_le _)]
-          have : viewAt cfg mf 0 = some v := by
-            have := hvl; rw [hun] at this; exact this
-          rw [this]
-          exact hmir
+          refine ⟨hopen, ?_, ?_, ?_⟩
+          · rw [curManifest_modify hc, hcur]
+            simp only [Option.map_some, Holds]
+            refine ⟨by
+              simp only [LogFile.append, hun, List.nil_append, List.head?_cons, Holds]
+              exact ⟨rfl, Nat.le_refl _⟩, ?_⟩
+            rw [viewAt_append_le cfg mf e' (Nat.zero_le _)]
+            have : viewAt cfg mf 0 = some v := by
+              have := hvl; rw [hun] at this; exact this
+            rw [this]
+            refine ⟨hmir, fun a ha => ?_⟩
+            rw [hed.shape.1] at ha
+            obtain ⟨o, ho, rfl⟩ := List.mem_map.1 ha
+            exact (hed.fresh o ho).1
+          · show s.stSq ≤ e.sq.getD s.stSq
+            rw [← hmir.2.2]
+            exact hed.mono.2.1
+          · intro hjn hsq
+            have hin := hok.inputs
+            rw [he] at hin
+            have hin : InputsOK s d j e := hin
+            unfold InputsOK at hin
+            split at hin
+            · obtain ⟨f1, f2⟩ := hin.2.2.2.2 hbc
+              refine ⟨f1, ?_⟩
+              show e.added.flatMap (tableGrpsOf d) = e.deleted.flatMap (tableGrpsOf d)
+              rw [← f2, hed.shape.1]
+              exact added_grps_eq (hok.outs_on_disk hbc hlate.2)
+            · rw [hsq] at hin
+              exact absurd hin.2.2 (by simp)
         · intro hb'; cases hb'
         · rw [hlv']
           simp only [Holds]
@@ -260,10 +296,10 @@ theorem inv_job_sync {cfg : Cfg} {s : St} {d : Disk} (h : Inv cfg s d) {j : Job}
     unfold JobManifestOK at hman
     rw [he] at hman
     simp only [hpc, JobManifest] at hman
-    obtain ⟨hopen, hman⟩ := hman
+    obtain ⟨hopen, hman, _, _⟩ := hman
     obtain ⟨hun, hmir0⟩ := holds_some hman hcur
     rw [hparts.hv0] at hmir0
-    have hmir0 : Mirror s v0 := hmir0
+    obtain ⟨hmir0, _⟩ : Mirror s v0 ∧ ∀ a ∈ e.added, v0.nf ≤ a := hmir0
     rw [holds_iff] at hun
     obtain ⟨r0, _, hun, _⟩ := hun
     let e' : MRec := { e with nf := r0.nf }
